@@ -23,7 +23,7 @@ def input_to_canonical_index(inputs: tp.Iterable[bool]) -> int:
     represents value of `i`th input.
 
     """
-    return int(''.join(str(int(v)) for v in inputs), 2)
+    return int('0' + ''.join(str(int(v)) for v in inputs), 2)
 
 
 def canonical_index_to_input(index: int, input_size: int) -> tp.Sequence[bool]:
